@@ -94,6 +94,98 @@ Theorem C16_host_port_stripped : forall name port,
 Proof. exact host_port_stripped. Qed.
 Print Assumptions C16_host_port_stripped.
 
+(** [C16_sound] with the origin of the client's server name spelled out
+    ([name_source]): for DoH it is the TLS state's ServerName whenever the
+    request has a TLS state (also an empty one), and the Host header without
+    its port only when it has none; for DoT/DoQ the connection's ServerName. *)
+Theorem C16_sound_source : forall p host strict sni h id,
+  client_id_of p host strict sni h = CidOk id -> id <> [] ->
+  secure p /\ valid_label id /\ lower id = id /\
+  ((p = DoH /\ exists r x, h = Some r /\ path_id (d_path r) x /\ valid_label x /\ id = lower x) \/
+   (reaches_sni p h /\ host <> [] /\
+    exists cli x, name_source p sni h cli /\ immediate_sub cli host x /\
+                  valid_label x /\ id = lower x)).
+Proof. exact sound_source. Qed.
+Print Assumptions C16_sound_source.
+
+Theorem C16_name_source : forall p sni h cli,
+  server_name_of p sni h = inr cli <-> name_source p sni h cli.
+Proof. exact server_name_source. Qed.
+Print Assumptions C16_name_source.
+
+(** A request with a TLS state: the Host header has no influence on the
+    outcome, whatever the protocol, path, TLS server name (also empty), strict. *)
+Theorem C16_tls_ignores_host : forall p host strict sni path n host1 host2,
+  client_id_of p host strict sni (Some (doh_tls path n host1)) =
+  client_id_of p host strict sni (Some (doh_tls path n host2)).
+Proof. exact tls_ignores_host. Qed.
+Print Assumptions C16_tls_ignores_host.
+
+(** ... and an id it yields is the path id or the label before the configured
+    name in the TLS server name. *)
+Theorem C16_sound_doh_tls : forall host strict sni path n hh id,
+  client_id_of DoH host strict sni (Some (doh_tls path n hh)) = CidOk id -> id <> [] ->
+  (exists x, path_id path x /\ valid_label x /\ id = lower x) \/
+  (path_plain path /\ host <> [] /\
+   exists x, immediate_sub n host x /\ valid_label x /\ id = lower x).
+Proof. exact sound_doh_tls. Qed.
+Print Assumptions C16_sound_doh_tls.
+
+(** DoH over TLS without SNI: the exact outcome.  No fallback to the Host
+    header: without an id in the path the empty name is checked (strict: error
+    unless no name is configured; otherwise no id); with /dns-query/<x> the path
+    decides; a non-empty id can only be the path's. *)
+Theorem C16_doh_tls_empty_sni : forall host strict sni path hh,
+  (path_plain path ->
+   client_id_of DoH host strict sni (Some (doh_tls path [] hh)) =
+     match host with
+     | [] => CidOk []
+     | _ :: _ => if strict then CidErr EMismatch else CidOk []
+     end) /\
+  (forall x, path_id path x ->
+   client_id_of DoH host strict sni (Some (doh_tls path [] hh)) =
+     match validate_hostname_label x with
+     | Some e => CidErr (EPathLabel e)
+     | None => CidOk (lower x)
+     end) /\
+  (forall id, client_id_of DoH host strict sni (Some (doh_tls path [] hh)) = CidOk id -> id <> [] ->
+   exists x, path_id path x /\ valid_label x /\ id = lower x).
+Proof. exact doh_tls_empty_sni. Qed.
+Print Assumptions C16_doh_tls_empty_sni.
+
+(** Plain-HTTP DoH (no TLS state): the exact outcome in terms of the Host header. *)
+Theorem C16_doh_plain_host : forall host strict sni path hh,
+  path_plain path -> host <> [] ->
+  client_id_of DoH host strict sni (Some (doh_plain path hh)) =
+    match hh with
+    | [] => if strict then CidErr EMismatch else CidOk []
+    | _ :: _ =>
+        match split_host hh with
+        | Some name => from_server_name host name strict
+        | None => CidErr EHostParse
+        end
+    end.
+Proof. exact doh_plain_host. Qed.
+Print Assumptions C16_doh_plain_host.
+
+Theorem C16_host_bracket_stripped : forall a port,
+  mem lbr a = false -> mem rbr a = false ->
+  mem colon port = false -> mem lbr port = false -> mem rbr port = false ->
+  split_host (lbr :: a ++ rbr :: colon :: port) = Some a.
+Proof. exact split_host_bracket. Qed.
+Print Assumptions C16_host_bracket_stripped.
+
+Theorem C16_host_two_colons_rejected : forall a b c,
+  a <> [] -> mem lbr a = false -> mem colon c = false ->
+  split_host (a ++ colon :: b ++ colon :: c) = None.
+Proof. exact split_host_two_colons. Qed.
+Print Assumptions C16_host_two_colons_rejected.
+
+Theorem C16_from_host_only_without_tls : forall r,
+  name_from_host r = true -> d_tls_sni r = None.
+Proof. exact from_host_only_without_tls. Qed.
+Print Assumptions C16_from_host_only_without_tls.
+
 (** Facts about the cleaned path the statements above rely on. *)
 Theorem C16_clean_idempotent : forall p, clean (clean p) = clean p.
 Proof. exact clean_idem. Qed.
